@@ -224,6 +224,10 @@ class Sess:
             for _ in range(self.rng.randint(1, 3)):
                 out.append(agent.reply(req, [B.enc_varbind((1, 3, 9), B.enc_int(666))],
                                        request_id=(req.request_id + self.rng.randrange(1, 1000)) & 0x7FFFFFFF, boots=sb, time=stm))
+            if v3 and req.m["usm"]["engine_id"] != b"" and self.rng.random() < 0.5:
+                # right ids, but from an engine whose id merely *extends* (or is a prefix of) the session's: foreign
+                eid = self.engine_id + b"\x00\x01" if self.rng.random() < 0.6 else self.engine_id[:-1]
+                out.append(agent.reply(req, [B.enc_varbind((1, 3, 9), B.enc_int(667))], engine_id=eid, boots=sb, time=stm))
         if self.beh == "stray_drop":
             return out  # strays only, the genuine reply is lost: the call must time out
         if v3 and req.m["usm"]["engine_id"] == b"":
